@@ -47,6 +47,10 @@ func init() {
 		rtPkg + ".Symbolic": func(ex *Exec, fn *ssa.Function, a []Value) (Value, *Panic) {
 			return ex.ts.Bool(ex.concrete == nil), nil
 		},
+		rtPkg + ".ConcreteInputs": func(ex *Exec, fn *ssa.Function, a []Value) (Value, *Panic) {
+			ex.concreteInputs = a[0].(*Term).IsTrue()
+			return nil, nil
+		},
 		rtPkg + ".Thorough": func(ex *Exec, fn *ssa.Function, a []Value) (Value, *Panic) {
 			return ex.ts.Bool(ex.cfg.Tier == "thorough"), nil
 		},
@@ -165,7 +169,14 @@ func argStr(v Value) string {
 
 func rtScalar(w uint16) intrinsic {
 	return func(ex *Exec, fn *ssa.Function, args []Value) (Value, *Panic) {
-		return ex.input(ex.freshName(argStr(args[0])), w), nil
+		name := ex.freshName(argStr(args[0]))
+		if ex.concreteInputs {
+			if w == 0 {
+				return ex.ts.Fals, nil
+			}
+			return ex.ts.Const(w, 0xa5a5a5a5a5a5a5a5), nil
+		}
+		return ex.input(name, w), nil
 	}
 }
 
@@ -205,7 +216,11 @@ func rtBytes(ex *Exec, fn *ssa.Function, args []Value) (Value, *Panic) {
 	n := int(nt.Int())
 	arr := ex.newArray(types.Typ[types.Byte], n, "verifrt.Bytes "+name)
 	for i := 0; i < n; i++ {
-		arr.e[i] = ex.input(fmt.Sprintf("%s[%d]", name, i), 8)
+		if ex.concreteInputs {
+			arr.e[i] = ex.ts.Const(8, 0xa5)
+		} else {
+			arr.e[i] = ex.input(fmt.Sprintf("%s[%d]", name, i), 8)
+		}
 	}
 	return &SliceV{arr: arr, off: 0, len: n, cap: n}, nil
 }
